@@ -15,6 +15,8 @@ HOLIDAY_NAMES = [u'å…ƒæ—¦èŠ‚', u'æ˜¥èŠ‚', u'æ¸…æ˜èŠ‚', u'åŠ³åŠ¨èŠ‚', u'ç«¯åˆèŠ
 
 
 def run(ctx):
+    from rules import shared
+    ctx.include('month_records', shared.month_records)   # leap table, solstice anchor, month memo, memo cells (shared, cached per source hash)
     I = ctx.interp(fuel=200000000)
     t = T(I)
     p = ctx.prog
